@@ -40,7 +40,8 @@ CLAIMS = {
         tech="Lean 4 proof over translator-regenerated tables + tree-shape and row correspondence"),
     'C06': dict(
         text="c06_outcome, c06_consistent_with_an, c06_none_iff, c06_ok, c06_multi_iff: the three outcomes are exactly 0 / 1 / >=2 "
-             "satisfying assignments and the value is the row an(...) yields. Correspondence on balanced 0/1/>=2 cases, two "
+             "satisfying assignments and the value is the row an(...) yields. Correspondence on balanced 0/1/>=2 cases (30% of the "
+             "one-variable descriptions in predicate form, the quantifier applied to the term: the(T(From(d), f=v))), two "
              "evaluations, caching on/off.",
         note=BASE_NOTE + "Re-evaluation consistency is C04's invariant; here it is checked by evaluating twice.",
         tech="Lean 4 proof (corollaries of C02) + differential correspondence"),
@@ -121,12 +122,14 @@ CLAIMS = {
              "projections of the assignments f with c(f, u) true for EVERY u (true_output_total, sols_mem, denote_congr by "
              "induction). The unrestricted statement is false of the code: c10_nonuniform_witness (by decide) = known finding "
              "C10-F1. c10_and_chain_partial: 'combined with other conditions by and_' - for a chain of conjuncts (ordinary "
-             "conditions and for_alls, any order, several for_alls over one universal variable) the rows are exactly the "
-             "assignments satisfying every conjunct, each for_all's condition for EVERY universal value (induction over the chain, "
-             "soundness/completeness invariant stages_inv). Correspondence: c mentioning universal+free / only free / only "
+             "conditions and for_alls, any order, several for_alls over one universal variable, NESTED for_alls for_all(u0, for_all(u1, ... c)) "
+             "of any depth) the rows are exactly the assignments satisfying every conjunct, each for_all's condition for EVERY "
+             "(combination of) universal value(s) (induction over the chain, soundness/completeness invariant stages_inv; nesting: "
+             "nested_sound / nested_complete by induction over the list of universal variables with the exact lookup table of "
+             "every level's outputs as invariant). Correspondence: c mentioning universal+free / only free / only "
              "universal variables, outer conjunct before or after, two for_alls, nested for_alls, caching.",
-        note=BASE_NOTE + "Nested for_alls (model evalForAllN), a conjunct mentioning a universal variable free, and caching are "
-             "covered by correspondence only (cache: findings C05-F1, C05-F3).",
+        note=BASE_NOTE + "A conjunct mentioning a universal variable free, and caching, are covered by correspondence only "
+             "(cache: findings C05-F1, C05-F3).",
         tech="Lean 4 proof (induction on the condition; intersection invariant over the universal values) + differential correspondence"),
     'C13': dict(
         text="Transliteration of update_domain_and_kwargs_from_args / properties_to_expression_tree / symbolic_new: "
@@ -156,9 +159,16 @@ CLAIMS = {
              "fireRule, any nesting of refinements and alternatives). c12_build_expected: the transliterated imperative "
              "construction (refineAt / altAt with climb-while-left-operand, buildKids) yields exactly the prescribed tree for EVERY "
              "surface program (induction over the program with a path/zipper invariant), hence c12_build_fire: the constructed "
-             "tree selects the ripple-down conclusion. Tree-shape correspondence with the real tree on every run.",
+             "tree selects the ripple-down conclusion. RulesExt.lean: rule trees in which a refinement introduces a further "
+             "variable (conclusions over different variable sets): ruleRowsA, the ripple-down reading over partial bindings "
+             "fireExtRule, and fireExtRule_closed (on programs whose conditions mention bound variables only it IS fireRule). "
+             "Tree-shape correspondence with the real tree on every run; the multiset of instances YIELDED and of instances "
+             "CONSTRUCTED by each evaluation vs the reference, 30% of the trees after an abandoned evaluation.",
         note=BASE_NOTE + "Branch-closed conditions, one Add per branch; rows theorem for single-variable rules (multi-variable rules by "
-             "correspondence). With caching enabled re-evaluation of trees with alternatives is known finding C05-F4.",
+             "correspondence). A refinement that introduces a variable is decided by correspondence against the executable "
+             "reference fireExtRule (one such block per tree, written as the first refinement on its path, refinements only below "
+             "it: elsewhere C12 leaves open whether a block that does not mention the new variable fires once per base match or once "
+             "per value). With caching enabled re-evaluation of trees with alternatives is known finding C05-F4.",
         tech="Lean 4 proof (semantics of the selectors by induction; RDR reference by induction on the surface program) + "
              "kernel-checked small-scope test of the construction + tree-shape and conclusion correspondence"),
     'C04': dict(
